@@ -20,9 +20,10 @@ PRE_CLOSED_RO = PRE_RO + [H("get", k="k1"), H("close")]
 
 
 def run(chk):
-    r = chk.tlc("StoreMC", "StoreMC.cfg", label="design: C39_NoWrite, C39_Refused on every transition")
-    if r.violated:
-        raise MachineryError(f"Store design violates {r.violated}: {r.counterexample()[:3000]}")
+    for _cfg in (("StoreMC.cfg",) if chk.thorough() else ("StoreMC_quick.cfg", "StoreMC_nocopy.cfg")):
+        r = chk.tlc("StoreMC", _cfg, label=_cfg + ": " + "design: C39_NoWrite, C39_Refused on every transition")
+        if r.violated:
+            raise MachineryError(f"Store design violates {r.violated}: {r.counterexample()[:3000]}")
     chk.tlc("StoreMC", "StoreMC_CloseTwice.cfg", expect_violation=True, label="vacuity guard: close() on a closed EKO unlinking the archive")
     n = 3 if chk.thorough() else 2
     hists = []
